@@ -468,18 +468,19 @@ def drop_log(text, dropped):
             parts = re.split(r"(::)", m)
             parts = [p for p in parts if p]
             if _seq(toks, i, parts + ["!"]) and toks[i + len(parts) + 1].text == "(" and \
-                    (i == 0 or toks[i - 1].text in (";", "{", "}")):
+                    (i == 0 or toks[i - 1].text in (";", "{", "}", "=>")):
                 close = match_close(toks, i + len(parts) + 1)
                 end = close
-                if close + 1 < len(toks) and toks[close + 1].text == ";":
+                arm = i > 0 and toks[i - 1].text == "=>"      # `pat => log::warn!(..),` : the arm's value becomes ()
+                if not arm and close + 1 < len(toks) and toks[close + 1].text == ";":
                     end = close + 1
-                edits.append((toks[i].start, toks[end].end))
+                edits.append((toks[i].start, toks[end].end, "()" if arm else "();"))
                 dropped.append("log statement: " + re.sub(r"\s+", " ", text[toks[i].start:toks[end].end])[:80])
                 i = end
                 break
         i += 1
-    for a, b in reversed(edits):
-        text = text[:a] + "();" + text[b:]
+    for a, b, rep in reversed(edits):
+        text = text[:a] + rep + text[b:]
     return text
 
 
